@@ -1,7 +1,7 @@
 """C04 — counterexamples marked valid are reproducible (value parsing, validity labelling,
 refine-once control flow).
 
-Obligations: T-refine, T-solvefs, T-solvedispatch, Props/C04.vo, lint.
+Obligations: T-refine, T-solvefs, T-solvedispatch, T-cexhandler, T-pathquery, Props/C04.vo, lint.
 Ties (every run):
   X-const   solve.parse_const_value on generated value texts (three syntaxes + malformed)
             vs the extracted model vs the intended value;
@@ -26,6 +26,16 @@ Ties (every run):
             query, the files left behind must be the current query's; result, validity,
             number of runs and the whole directory afterwards vs the extracted model
             (Model/SolveFsModel.v interpreting the regenerated gen_dump / gen_low_level);
+  X-path    real sevm.Path objects through appends / branches / slices / extensions (a path spans
+            transactions), then to_smt2 with and without --cache-solver: the query must entail every
+            condition the path assumed; asserted conditions and the path's solver vs the model;
+  X-inv     python -m halmos --invariant-depth 1: the violating call has a require() on an argument
+            that never reaches the state; every valid model is replayed concretely;
+  X-handler the real _solve_end_to_end_callback on fabricated futures x executor shut down x
+            --early-exit vs the model; nothing may be reported once the executor is shut down;
+  X-kill    handle_assertion_violation -> thread pool -> solve_end_to_end -> PopenExecutor with
+            scripted solvers that are killed mid-answer when another path's valid counterexample
+            shuts the executor down: a valid counterexample is the model of a complete answer;
   X-l3      python -m halmos --dump-smt-directory end to end on fabricated projects with
             overloaded tests, several runs sharing the directory, each test with exactly one
             failing input: every counterexample marked valid must assign that input.
@@ -40,7 +50,7 @@ from harness import common
 from harness.common import Model
 
 PID = "C04"
-TRANSLATORS = ["T-refine", "T-solvefs", "T-solvedispatch"]
+TRANSLATORS = ["T-refine", "T-solvefs", "T-solvedispatch", "T-cexhandler", "T-pathquery"]
 KNOWN = []
 
 ASSUMPTIONS = [
@@ -48,6 +58,8 @@ ASSUMPTIONS = [
     "solver outputs are ASCII; Python's int() leniencies (underscores, signs, surrounding whitespace) are outside the model because halmos_var_pattern only passes [01]+ / [0-9a-fA-F]+ / decimal digits to parse_const_value",
     "the dispatch of _solve_end_to_end_callback on model.is_valid (valid list vs `potentially invalid` warning) is read from __main__.py; it is executed only by the X-l3 runs",
     "the solver reads the file named on its command line while it runs and nothing else writes to the dump directory in between (one process per dump directory; path ids are unique among the paths of one function that are solved concurrently)",
+    "a solver process is killed only by PopenExecutor.shutdown, after its shutdown flag is set, and what a killed process has printed is a prefix of what it would have printed (hypotheses of C04_valid_cex_from_complete_output; exercised by the kill scenarios)",
+    "z3's parse_smt2_string reads the query text as the solver binaries do (used to decide which path conditions a query entails)",
     "the extracted model and driver are faithful to the Coq definitions (extraction is trusted)",
 ]
 PARTIAL = "C04_valid_cex (a valid model, replayed as an input, drives the concrete EVM to the reported panic) needs the C01 reference interpreter and is not part of this module; the check replays valid models on the path constraints with exact arithmetic instead"
@@ -859,7 +871,99 @@ def run(rep, tier):
                     fail("failing-input", f"python -m halmos --dump-smt-directory, run {k + 1}: {sig} fails for y = {t['want']} but ended {t['status']} with models {t['models']}", case,
                          sig={"what": "refinement-lost-cex"})
 
+    # ---- X-inv: python -m halmos --invariant-depth 1: the violating sequence needs a require() on an
+    # argument that never reaches the state (a condition of the earlier transaction's path)
+    for t in (c04_l3.gen_inv_scenarios(tier, r) if fam_on("l3") else []):
+        case = {"inv": t}
+        rep.count("l3_run", "invariant test, depth 1")
+        rep.case({"inv": common.case_hash(case)}, nontrivial=True)
+        try:
+            o = c04_l3.run_inv_scenario(t)
+        except Exception as e:  # noqa: BLE001
+            fail("broken-tie", f"the end-to-end invariant run could not be made: {type(e).__name__}: {e}", case)
+            continue
+        if o["error"] is not None:
+            fail("broken-tie", f"halmos produced no report: {o['error'][-300:]}", case)
+            continue
+        valid = [mm for mm in o["models"] if mm["valid"]]
+        wrong = [mm for mm in valid if not c04_l3.inv_replay(t, mm["vals"])]
+        if wrong:
+            fail("failing-input", f"python -m halmos --invariant-depth 1: invariant_ok() reports the valid counterexample {wrong[0]['names']} = {wrong[0]['vals']}; replaying C.set(a, b) with these inputs "
+                 f"(absent ones as 0) does not break the invariant: set() requires a = {t['a0']} and the invariant breaks only for b = {t['b0']}", case, sig={"what": "cex-not-reproducible"})
+        elif o["status"] != "FAIL" or not valid:
+            fail("failing-input", f"python -m halmos --invariant-depth 1: the invariant is broken by C.set({t['a0']}, {t['b0']}) but the test ended {o['status']} with models {o['models']}", case,
+                 sig={"what": "refinement-lost-cex"})
+
     phase("l3")
+    # ---- X-path: real Path objects through appends / branches / slices / extensions, then to_smt2
+    from harness import c04_path
+
+    pcs = c04_path.gen_path_cases(tier, r) if fam_on("path") else []
+    pq_calls, pq_meta = [], []
+    for c in pcs:
+        case = {"path": c}
+        try:
+            o = c04_path.run_path_case(c)
+        except Exception as e:  # noqa: BLE001
+            fail("broken-tie", f"Path operations raised {type(e).__name__}: {e} on {c}", case)
+            continue
+        ntx = sum(1 for x in c["ops"] if x["op"] == "extend")
+        rep.count("path_case", f"{ntx} extension(s) of a sliced path")
+        rep.case({"path": common.case_hash(case)}, nontrivial=ntx > 0)
+        for cache in (0, 1):
+            miss = [i for i in o["assumed"] if i not in o["query"][cache]]
+            if miss:
+                fail("failing-input", f"Path.to_smt2(cache_solver={bool(cache)}) after {[x['op'] for x in c['ops']]}: the query does not assert the path condition(s) {miss} "
+                     f"(asserted: {o['query'][cache]}; the path's own solver holds {o['solver']}): a model of it need not satisfy them", case, sig={"what": "query-lacks-condition"})
+            pq_calls.append(c04_path.model_call(c, o, cache))
+            pq_meta.append((case, cache, o))
+    if m is not None and pq_calls:
+        for (case, cache, o), mo in zip(pq_meta, m.parallel_batch(pq_calls)):
+            want = c04_path.model_decode(mo)
+            have = {"query": sorted(o["query"][cache]), "solver": sorted(o["solver"])}
+            if want != have:
+                fail("broken-tie", f"Path.to_smt2(cache_solver={bool(cache)}) on {[x['op'] for x in case['path']['ops']]}: implementation {have}, model {want}", case)
+
+    phase("path")
+    # ---- X-handler: the real _solve_end_to_end_callback on fabricated futures
+    from harness import c04_handler
+
+    hcs = c04_handler.callback_cases() if fam_on("handler") else []
+    hobs = [c04_handler.run_callback(c, td) for c in hcs]
+    hres = (m.parallel_batch([("c04_handler", [c["shutdown"], c["early_exit"], c04_handler.FUT_CODE[c["future"]]]) for c in hcs]) if hcs else []) if m is not None else None
+    for i, (c, o) in enumerate(zip(hcs, hobs)):
+        case = {"handler": c}
+        rep.count("handler_case", ("after-shutdown/" if c["shutdown"] else "running/") + c["future"])
+        rep.case(case, nontrivial=bool(c["shutdown"]) or c["future"].startswith("sat"))
+        if o["exc"]:
+            fail("failing-input", f"_solve_end_to_end_callback raised {o['exc']} on {c}", case, sig={"what": "callback-raises"})
+        elif c["shutdown"] and o["verdict"]:
+            fail("failing-input", f"the solver executor was already shut down (its solver processes are killed, their output may be cut) and the callback still reported a "
+                 f"{'valid' if o['verdict'] == 1 else 'potentially invalid'} counterexample for a future holding {c['future']}", case, sig={"what": "reported-after-shutdown"})
+        elif o["both"] or (o["verdict"] == 1) != (c["future"] == "sat_valid" and not c["shutdown"]):
+            fail("failing-input", f"callback on {c}: the model went to the wrong list ({o})", case, sig={"what": "valid-with-abstraction"})
+        elif hres is not None and hres[i] != [o["verdict"], o["shut"]]:
+            fail("broken-tie", f"_solve_end_to_end_callback on {c}: implementation [verdict, shuts down] = {[o['verdict'], o['shut']]}, model {hres[i]}", case)
+
+    # ---- X-kill: handle_assertion_violation -> thread pool -> solve_end_to_end -> solver processes that are
+    # killed in the middle of their answer when the first valid counterexample shuts the executor down
+    for scn in (c04_handler.gen_kill_scenarios(tier, r) if fam_on("kill") else []):
+        case = {"kill": scn}
+        try:
+            o = c04_handler.run_kill_scenario(scn, td)
+        except Exception as e:  # noqa: BLE001
+            fail("broken-tie", f"the concurrent solving scenario could not be run: {type(e).__name__}: {e}", case)
+            continue
+        rep.count("kill_scenario", ("early-exit" if scn["early_exit"] else "no-early-exit") + ("/a solver was killed mid-answer" if o["killed"] else ""))
+        rep.case({"kill": common.case_hash(case)}, nontrivial=bool(o["killed"]))
+        allowed = c04_handler.allowed_valid(scn)
+        wrong = [mm for mm in o["valid"] if mm not in allowed]
+        if wrong:
+            fail("failing-input", f"{'--early-exit, ' if scn['early_exit'] else ''}{len(scn['paths'])} paths solved concurrently: the counterexample {wrong[0]} was reported as valid, but it is not the model of any "
+                 f"complete, abstraction-free solver answer (complete valid answers: {allowed}); solvers killed in the middle of their answer: {o['killed']}; "
+                 f"answers and where they paused: {[(pp['key'], pp['k1'], pp['cut']) for pp in scn['paths']]}", case, sig={"what": "cex-from-cut-output"})
+
+    phase("handler")
     # ---- X-e2e with the real solvers
     rcases = gen_real_cases(tier, r) if fam_on("real") else []
     calls, robs = [], []
@@ -931,7 +1035,7 @@ def run(rep, tier):
         trusted_base=common.TRUSTED_BASE_COMMON + ["the z3 and yices-smt2 binaries in /venv/bin as truthful solvers in the end-to-end part of the correspondence run"],
         assumptions=ASSUMPTIONS,
         partial=PARTIAL + (f"; THIS RUN WAS RESTRICTED to the families {only} (VERIF_C04_ONLY)" if only else ""),
-        rule="five case families: (1) const: value texts in the syntaxes #b / #x (both cases) / (_ bvN W) / bvN for boundary and random values up to 512 bits plus malformed texts; non-trivial = well-formed value > 9; (2) model_output: generated get-model outputs with 1-5 define-fun entries (halmos_/p_/other names, |quoted|, wrapped lines, three value syntaxes, unparsable values); (3) print: real z3 / yices-smt2 (halmos' arguments, and --smt2-model-format alone) printing the model of x = n at widths 8/160/256/264; (4) scripted: every combination of canned first/refined solver answers x unsat-core hit x already-refined x refinement-changes-text through the real solve_end_to_end; non-trivial = first answer is sat; (5) real: Path queries f_evm_op(x, y) = r with x and/or y pinned, through the real solve_end_to_end with real z3 / yices (refinement needed), incl. exp (must stay potentially invalid) and unsatisfiable-after-refinement ones; (6) fs: sessions of 2-5 queries solved in one dump directory pre-populated (60%) with files of an earlier run, path ids drawn from a small set so that names collide, scripted solver keyed by the content it is handed, first / refined answers from {valid, abstract, unsat, unknown, garbage, timeout}, unsat-core hits, already-refined contexts; non-trivial = a file named like the current query's was already there; (7) l3: python -m halmos --dump-smt-directory on fabricated contracts with overloaded tests (identity / XOR / ADD conditions, one failing input each), two runs sharing the directory; distinct by hash of the case",
+        rule="five case families: (1) const: value texts in the syntaxes #b / #x (both cases) / (_ bvN W) / bvN for boundary and random values up to 512 bits plus malformed texts; non-trivial = well-formed value > 9; (2) model_output: generated get-model outputs with 1-5 define-fun entries (halmos_/p_/other names, |quoted|, wrapped lines, three value syntaxes, unparsable values); (3) print: real z3 / yices-smt2 (halmos' arguments, and --smt2-model-format alone) printing the model of x = n at widths 8/160/256/264; (4) scripted: every combination of canned first/refined solver answers x unsat-core hit x already-refined x refinement-changes-text through the real solve_end_to_end; non-trivial = first answer is sat; (5) real: Path queries f_evm_op(x, y) = r with x and/or y pinned, through the real solve_end_to_end with real z3 / yices (refinement needed), incl. exp (must stay potentially invalid) and unsatisfiable-after-refinement ones; (6) fs: sessions of 2-5 queries solved in one dump directory pre-populated (60%) with files of an earlier run, path ids drawn from a small set so that names collide, scripted solver keyed by the content it is handed, first / refined answers from {valid, abstract, unsat, unknown, garbage, timeout}, unsat-core hits, already-refined contexts; non-trivial = a file named like the current query's was already there; (7) l3: python -m halmos --dump-smt-directory on fabricated contracts with overloaded tests (identity / XOR / ADD conditions, one failing input each), two runs sharing the directory; (8) inv: python -m halmos --invariant-depth 1 on a target whose setter has a require() on an argument that is not stored: every valid model is replayed concretely; (9) path: real sevm.Path objects through random appends / branches / duplicate appends / slices over state variables / extensions by a fresh path (0-3 transactions), conditions over fresh variables, then to_smt2 with and without --cache-solver: the query must entail every condition; non-trivial = at least one extension of a sliced path; (10) handler: the real _solve_end_to_end_callback for every (executor shut down?, --early-exit?, future content) combination; (11) kill: 2-4 candidates solved concurrently through the real handle_assertion_violation / thread pool / PopenExecutor with scripted solvers that pause after `sat`, after the variables, inside the f_evm_ name, after it, in the first line, with / without a SIGTERM handler, one of them producing a valid answer that (with --early-exit) shuts the executor down and kills the others; non-trivial = a solver was killed mid-answer; distinct by hash of the case",
     )
 
 
@@ -945,6 +1049,24 @@ def replay(rep, body):
             print(case["model_output"], "->", real_parse_model(case["model_output"]))
         elif "scripted" in case:
             print(case["scripted"], "->", run_scripted(case["scripted"], td))
+        elif "inv" in case:
+            from harness import c04_l3
+
+            o = c04_l3.run_inv_scenario(case["inv"])
+            print(case["inv"], "->", o["status"], [(mm["valid"], mm["vals"], "reproduces" if c04_l3.inv_replay(case["inv"], mm["vals"]) else "DOES NOT REPRODUCE") for mm in o["models"]])
+        elif "path" in case:
+            from harness import c04_path
+
+            print(case["path"], "->", c04_path.run_path_case(case["path"]))
+        elif "handler" in case:
+            from harness import c04_handler
+
+            print(case["handler"], "->", c04_handler.run_callback(case["handler"], td))
+        elif "kill" in case:
+            from harness import c04_handler
+
+            o = c04_handler.run_kill_scenario(case["kill"], td)
+            print(case["kill"], "->", o, "allowed as valid:", c04_handler.allowed_valid(case["kill"]))
         elif "l3" in case:
             from harness import c04_l3
 
